@@ -11,6 +11,7 @@ use crate::fx::{clamp_abs, dec34, fmt_fixed, fx_int, fx_mag, pow10, undec, Fx, M
 use crate::refalgo;
 use crate::truth::{self, BF};
 
+static NO_PORT: std::sync::LazyLock<bool> = std::sync::LazyLock::new(|| std::env::var("PV_MATH_NO_PORT").is_ok());
 static MAX_EXP: MaxF64 = MaxF64::new();
 static MAX_LN: MaxF64 = MaxF64::new();
 static MAX_POW: MaxF64 = MaxF64::new();
@@ -64,6 +65,11 @@ fn impl_value(d: &FixedDecimal, what: &str) -> Result<BigInt, Fail> {
 }
 
 fn digits_check(what: &str, got: &FixedDecimal, want: &BigInt, input: &str) -> Result<(), Fail> {
+    // development aid for the sensitivity runs only: PV_MATH_NO_PORT=1 disables oracle 1 so that
+    // the detection power of oracle 2 (truth within tolerance) can be measured on its own
+    if *NO_PORT {
+        return Ok(());
+    }
     let want_d = dec34(want);
     pv_ensure!(
         *got == want_d,
@@ -370,6 +376,7 @@ pub fn run(s: &Session) {
             "pow": "dz=|y|*tol_ln(b)+1e-34 <= 1e-3: |impl-b^y| <= b^y*(1.01*dz + 1.25e-24*(|y ln b|+2)) + 4e-34",
         }),
     );
+    s.health(!*NO_PORT, "PV_MATH_NO_PORT is set: the digit-for-digit oracle is disabled (sensitivity ablation only)");
     if !s.replaying() {
         let bad = truth::selftest();
         s.health(bad.is_empty(), &format!("truth oracle self-test failed: {bad:?}"));
